@@ -43,6 +43,14 @@ CHECKS = {
    technique="deterministic simulation of the real connection pool under concurrent inserts/removes; reference set model and per-step invariant",
    text="Pool half of C12 only: concurrent connections race for the same identities and for the quota of unlisted peers on the real PoolWatch; after every step the pool holds at most one entry per key and at most `quota` keys outside the allowed set, every admission decision equals a reference set model, and the quota neither leaks nor over-admits. The handshake half (authentication, genesis, expected peer) is NOT claimed in this revision.",
    note="Handshake half needs the simulated TCP seam (hook H2), not built yet."),
+ "C13": dict(engine="pipesim", design="DESIGN.md section 5 (C13)", level="fault_enumeration",
+   technique="deterministic simulation of the real noise stream over fragmenting / back-pressuring pipes, plus enumeration of every single-point ciphertext tampering (frame x kind) per base session",
+   text="Benign half (exploration): the real noise::Stream on both ends of a simulated duplex whose every poll is a seeded decision (1-byte reads splitting the length prefix, partial writes, spurious Pending, capacity 1); bytes read must be a prefix of bytes accepted, everything flushed must arrive, EOF exactly at the end after shutdown, no wire frame above 2+65535 bytes. Tamper half (fault enumeration): for each base session a relay applies each of 11 single-point tamperings to each ciphertext frame in turn; the reader must deliver a correct prefix and then fail or reach EOF, never altered, reordered or duplicated plaintext, also on subsequent reads.",
+   note="Per base run the (frame, kind) space is enumerated completely; positions inside a frame are represented by one byte per kind (length, body, tag). snow and ChaChaPoly are trusted."),
+ "C14": dict(engine="pipesim", design="DESIGN.md section 5 (C14)",
+   technique="deterministic simulation of two real multiplexers over a fragmenting pipe with generated application workers; pairing / ordering / EOS / stream-limit / buffer-bound oracles",
+   text="Two real Mux endpoints with random, unequal capability and stream limits and tiny buffer limits exchange self-describing data on many concurrent transient streams in both directions. After the run the uses of both sides must pair up one-to-one per capability, each reader having received exactly its counterpart's bytes in order (complete when read to end-of-stream), end-of-stream only after the counterpart closed; during the run streams held per capability never exceed min(local, peer limit) and payload pulled from the transport but not consumed never exceeds read_buffer_size.",
+   note="Buffer bound checked with cooperative readers only (see evidence assumptions); non-cooperative frame-level peers belong to the C10 byte-level check."),
  "C15": dict(engine="primsim", design="DESIGN.md section 5 (C15)",
    technique="deterministic simulation of the real Limiter with seeded schedules, director-controlled clock, cancellations; token-bucket / FIFO / leak oracles over the grant history",
    text="Limiter half of C15: 1-6 client tasks acquire / hold / drop / cancel on the real Limiter while the director advances the manual clock; over the grant history: no window of length T sees more than burst + T/refresh + 1 permits, waiters are served in arrival order, cancelled waits consume nothing (no leak: acquire(burst) is immediate after burst*refresh of idleness), nothing above burst is ever granted. The per-RPC-stream half is not claimed yet.",
@@ -77,6 +85,8 @@ for p in ALL:
         NA[p] = "not yet built in this revision (planned, see DESIGN.md section 5)."
 
 ENGINES = [
+ {"name": "pipesim", "path": "sim/src/pipes", "serves_properties": [p for p, c in CHECKS.items() if c["engine"] == "pipesim"],
+  "kind_free_text": "deterministic simulation of byte-stream components: real noise::Stream / mux / rpc::Service endpoints over SimPipe (an in-memory duplex whose every poll is a seeded decision), wire observers and a tampering relay"},
  {"name": "primsim", "path": "sim/src/prim", "serves_properties": [p for p, c in CHECKS.items() if c["engine"] == "primsim"] + ["C16"],
   "kind_free_text": "deterministic simulation of concurrency primitives and bookkeeping structures: the real Limiter, prunable channel, scopes, EngineManager/BlockStore, PoolWatch, address book and fetch queue driven by generated client tasks under the gate scheduler and a director-controlled clock, against small executable reference models"},
  {"name": "bftsim", "path": "sim/src/bft", "serves_properties": [p for p, c in CHECKS.items() if c["engine"] == "bftsim"],
@@ -84,7 +94,7 @@ ENGINES = [
 ]
 
 def level(p):
-    return "exploration"
+    return CHECKS[p].get("level", "exploration")
 
 m = {
  "version": 1,
